@@ -534,7 +534,7 @@ func c13Probes(r *kit.Run, interp *prolog.Interpreter, out *kit.SimWriter, sc *c
 			r.Fail("unusable-after-cancel", "probe-error", "probe %q: %v", q, err)
 			return false
 		}
-		if strings.Join(got, ";") != strings.Join(want, ";") {
+		if !kit.SameList(got, want) {
 			r.Fail("unusable-after-cancel", "probe-answers:"+q, "after the cancelled call, %q answered %v, expected %v", q, got, want)
 			return false
 		}
